@@ -14,7 +14,7 @@ from rv.harness import mod
 LEVEL = "exploration"
 RULE = ("(a) lower_bound: bounded-exhaustive over all sorted vectors of 1..4 bins over 0..G and remaining totals 0..8 (G = 5 quick, 6 thorough; sharded), random vectors with up to 16 bins and values up to 2^49, "
         "both values of the sorted flag, list/tuple/ndarray; (b) generate_tree: item lists (n <= 10) with zeros and repeats, integer and fractional windows including empty and inverted ones, "
-        "named and unnamed items, plus windows tightened by the caller between yields (soundness at yield time); (c) all_combinations: pairs of bins-arrays with 1..5 bins, ties and empty bins, both managers; (d) in situ: contracts on the same three extension points while "
+        "named and unnamed items, plus windows tightened by the caller between yields (soundness at yield time); (c) all_combinations: pairs of bins-arrays with 1..5 bins, ties and empty bins, both managers, also with two or three enumerations of the same manager alive at once (interleaved); (d) in situ: contracts on the same three extension points while "
         "complete greedy / ckk / snp / rnp solve generated instances. Non-trivial: R > 0 and not all sums equal (a); window excludes >= 1 subset and admits >= 1 (b); >= 2 distinct pairings (c); "
         "distinct on the call's arguments")
 ASSUMPTIONS = ["'best reachable value' = optimum over non-negative integer additions of the remaining total (the all-ones multiset attains it)",
@@ -172,6 +172,49 @@ def judge_comb(case, ctx):
     ctx.held(key=("comb", case["manager"], repr(b1), repr(b2)), nontrivial=len(want) >= 2, cls=alg, sample={"case": case, "distinct_pairings": len(want)})
 
 
+def judge_comb_interleaved(case, ctx):
+    """
+    Two enumerations by the SAME manager are alive at the same time (nested loops over three partial partitions, or zip): each one must still yield exactly
+    the distinct pairings of ITS OWN arguments.
+    """
+    ctx.evaluated()
+    A = C.algos()
+    if case["manager"] == "contents":
+        binner = A.prtpy.BinnerKeepingContents()
+        mk = lambda bins: (np.array([float(sum(b)) for b in bins]), [list(b) for b in bins])
+        canon = lambda nb: O.canon_bins(nb[1])
+        want = lambda b1, b2: O.all_pairings_contents(b1, b2)
+    else:
+        binner = A.prtpy.BinnerKeepingSums()
+        mk = lambda bins: np.array(bins, dtype=float)
+        canon = lambda nb: tuple(sorted(float(x) for x in nb))
+        want = lambda b1, b2: O.all_pairings_sums(list(map(float, b1)), list(map(float, b2)))
+    pairs = case["pairs"]
+    try:
+        gens = [binner.all_combinations(mk(b1), mk(b2)) for b1, b2 in pairs]
+        got = [Counter() for _ in pairs]
+        alive = list(range(len(gens)))
+        order = random.Random(case.get("seed", 0))
+        while alive:
+            i = order.choice(alive)            # advance the live enumerations in a random interleaving
+            try:
+                nb = next(gens[i])
+                got[i][canon((list(nb[0]), [list(x) for x in nb[1]]) if case["manager"] == "contents" else list(nb))] += 1
+            except StopIteration:
+                alive.remove(i)
+    except Exception as e:
+        ctx.violation("exception", "all_combinations/" + case["manager"], case, {"exc": repr(e)[:200]})
+        return
+    for i, (b1, b2) in enumerate(pairs):
+        w = want(b1, b2)
+        if set(got[i]) != w or any(c > 1 for c in got[i].values()):
+            ctx.violation("interleaved_enumerations_disturb_each_other", "all_combinations/" + case["manager"], case,
+                          {"enumeration": i, "missing": repr(sorted(w - set(got[i]))[:2])[:200], "extra": repr(sorted(set(got[i]) - w)[:2])[:200],
+                           "repeated": repr([k_ for k_, c in got[i].items() if c > 1][:2])[:200]})
+            return
+    ctx.held(key=("combi", case["manager"], repr(pairs)), nontrivial=len(pairs) >= 2, cls="all_combinations/" + case["manager"] + "/interleaved", sample={"case": case})
+
+
 def draw_comb(rng):
     k = rng.choice([1, 2, 2, 3, 3, 3, 4, 4, 5])
     manager = rng.choice(["sums", "contents"])
@@ -304,6 +347,11 @@ def run_shard(spec, rng, ctx):
         judge_lb({"kind": "lb", "objective": rng.choice(LB_NAMES), "sums": sums, "R": R}, ctx)
         judge_tree(draw_tree(rng), ctx)
         judge_comb(draw_comb(rng), ctx)
+        if rng.random() < 0.3:
+            k = rng.choice([2, 3, 3, 4])
+            manager = rng.choice(["sums", "contents"])
+            mkb = (lambda: sorted(rng.randint(0, 30) for _ in range(k))) if manager == "sums" else (lambda: [[rng.randint(0, 9) for _ in range(rng.choice([0, 1, 2]))] for _ in range(k)])
+            judge_comb_interleaved({"kind": "combi", "manager": manager, "pairs": [[mkb(), mkb()] for _ in range(rng.choice([2, 2, 3]))], "seed": rng.randrange(1000)}, ctx)
         t = draw_tree(rng)
         if t["values"] and t["lo"] <= t["hi"]:
             tot = sum(t["values"])
@@ -323,6 +371,8 @@ def replay(case, ctx):
         judge_comb(case, ctx)
     elif kind == "treedyn":
         judge_tree_dynamic(case, ctx)
+    elif kind == "combi":
+        judge_comb_interleaved(case, ctx)
     else:
         from rv.monitors import Contracts
         con = Contracts(mode="record").install()
